@@ -93,6 +93,9 @@ func (s *PluginSigner) Sign(ctx context.Context, desc ocispec.Descriptor, opts n
 	if err != nil {
 		return nil, nil, err
 	}
+	if metadata == nil {
+		return nil, nil, errors.New("plugin returned an empty get-plugin-metadata response")
+	}
 	logger.Debugf("Using plugin %v with capabilities %v to sign oci artifact %v in signature media type %v", metadata.Name, metadata.Capabilities, desc.Digest, opts.SignatureMediaType)
 	if metadata.HasCapability(plugin.CapabilitySignatureGenerator) {
 		ks, err := s.getKeySpec(ctx, mergedConfig)
@@ -123,6 +126,9 @@ func (s *PluginSigner) SignBlob(ctx context.Context, descGenFunc notation.BlobDe
 	metadata, err := s.plugin.GetMetadata(ctx, &plugin.GetMetadataRequest{PluginConfig: mergedConfig})
 	if err != nil {
 		return nil, nil, err
+	}
+	if metadata == nil {
+		return nil, nil, errors.New("plugin returned an empty get-plugin-metadata response")
 	}
 	logger.Debug("Invoking plugin's describe-key command")
 	ks, err := s.getKeySpec(ctx, mergedConfig)
@@ -196,6 +202,9 @@ func (s *PluginSigner) generateSignatureEnvelope(ctx context.Context, desc ocisp
 	if err != nil {
 		return nil, nil, fmt.Errorf("plugin failed to sign with following error: %w", err)
 	}
+	if resp == nil {
+		return nil, nil, errors.New("plugin returned an empty generate-envelope response")
+	}
 
 	// Check signatureEnvelopeType is honored.
 	if resp.SignatureEnvelopeType != req.SignatureEnvelopeType {
@@ -255,6 +264,9 @@ func (s *PluginSigner) describeKey(ctx context.Context, config map[string]string
 	resp, err := s.plugin.DescribeKey(ctx, req)
 	if err != nil {
 		return nil, err
+	}
+	if resp == nil {
+		return nil, errors.New("plugin returned an empty describe-key response")
 	}
 	return resp, nil
 }
@@ -368,6 +380,9 @@ func (s *pluginPrimitiveSigner) Sign(payload []byte) ([]byte, []*x509.Certificat
 	resp, err := s.plugin.GenerateSignature(s.ctx, req)
 	if err != nil {
 		return nil, nil, err
+	}
+	if resp == nil {
+		return nil, nil, errors.New("plugin returned an empty generate-signature response")
 	}
 
 	// Check keyID is honored.
